@@ -52,6 +52,8 @@ class Ob:
         self.wall = 0.0
         self.bounds = {}
         self.queries = []        # deferred queries (dicts)
+        self.scenarios = []      # replay scenario templates
+        self.strings = {}
 
     def to_dict(self):
         d = dict(self.__dict__)
@@ -129,6 +131,8 @@ class Ctx:
         self.path_status = {}
         self.path_model = {}
         self.nq = 0
+        self.scn = None
+        self.scn_exprs = {}
 
     def interp(self, feas_timeout_ms=1500):
         I = engine.interp_from_parsed(self.parsed, feas_timeout_ms)
@@ -171,6 +175,10 @@ class Ctx:
         pf = self.path_feasible(st)
         if pf == 'unsat':
             return
+        if self.scn is not None and kind != 'witness':
+            mvx = dict(self.scn_exprs)
+            mvx.update(model_vars or {})
+            model_vars = mvx
         assume = [a for a in assume if a is not True]
         if any(a is False for a in assume):
             if kind == 'witness':
@@ -236,8 +244,15 @@ class Ctx:
                     except Exception:   # noqa
                         pass
         self.nq += 1
-        self.ob.queries.append({'kind': kind, 'text': s.to_smt2(), 'sels': sels, 'mv': mvnames, 'base': base,
+        self.ob.queries.append({'kind': kind, 'text': s.to_smt2(), 'sels': sels, 'mv': mvnames, 'base': base, 'scn': self.scn,
                                 'sliced': pf == 'sat', 'size': len(kept), 'full': len(pc)})
+
+    def set_scenario(self, templ, scenario):
+        """register the replay scenario template of the current world (templ: tojson.Templ that built it)."""
+        self.ob.scenarios.append(scenario)
+        self.scn = len(self.ob.scenarios) - 1
+        self.scn_exprs = dict(templ.exprs)
+        self.ob.strings = {str(k): v for k, v in templ.I.strings_rev.items()}
 
     def require(self, st, prop, claim, key='', model_vars=None, assume=()):
         self._emit(st, 'require', [(prop, claim, key)], list(assume), model_vars)
@@ -492,7 +507,11 @@ def run_check(prop_id, modname, tier, seed, jobs=None, only=None):
                             r['witnesses'].append({'label': c['claim'], 'model': c['model']})
                     continue
                 if c['status'] == 'sat':
-                    r['violations'].append({'claim': c['claim'], 'site': c['key'], 'key': c['key'], 'model': c['model']})
+                    viol = {'claim': c['claim'], 'site': c['key'], 'key': c['key'], 'model': c['model']}
+                    if q.get('scn') is not None:
+                        viol['scenario_t'] = r['scenarios'][q['scn']]
+                        viol['strings'] = r['strings']
+                    r['violations'].append(viol)
                 elif c['status'] == 'unknown':
                     r['unknowns'].append({'claim': c['claim'], 'site': c['key']})
         labels = wit_sat + [w['label'] for w in r['witnesses']]
